@@ -298,6 +298,8 @@ pub enum Plan {
     Cluster(u8),
     /// positions 2^k-3.. (wrap-around region): position = !0 - (id % 3), tag fixed
     Last,
+    /// positions spread over the last 15 buckets (runs that wrap around the end): position = !0 - (id % 15)
+    Tail,
     /// explicit (position, tag) per class: id % n selects entry
     Adv(u8),
 }
@@ -344,6 +346,7 @@ impl Plan {
                     mk_hash(5 * cl, cl as u8 + 1)
                 }
                 Plan::Last => mk_hash((u64::MAX >> 7) - (i % 3), 0x2a),
+                Plan::Tail => mk_hash((u64::MAX >> 7) - (i % 15), 0x2a),
                 Plan::Adv(g) => {
                     let grid = ADV_GRID[g as usize];
                     let (p, tg) = grid[id % grid.len()];
